@@ -18,9 +18,18 @@ package main
 //@   requires[producers-nonnil] forall k string :: {producers[k]} has(producers, k) ==> producers[k] != nil
 //@   ensures[record-exact] pubCount > old(pubCount) ==> isPrefix(lastPubBody, readLine, recLen(readLine, delim)) && lastPubTopic == *topic
 //@   ensures[empty-nothing] recLen(readLine, delim) == 0 ==> pubCount == old(pubCount)
-// (the converse - a non-empty record reaches every producer - needs the visited set of the map range
-//  in a loop invariant, which the contract language cannot name: see ENGINE GAPS in NOTES.md)
-//@   modifies readLine, pubCount, lastPubTopic, lastPubBody, rPos, jbrErr, jbrLeft
+// "to every destination": unless a publish failed, a non-empty record has been handed - these very bytes, this topic - to
+// EVERY producer of the map (event set r3dPubEvs of relay.spec; map-range completeness through visited()).
+//@   ensures[every-producer] recLen(readLine, delim) > 0 && r3dPubFails == old(r3dPubFails) ==> (forall k string :: {producers[k]} has(producers, k) ==> setin(r3dPubEvs, r3dPubEv(producers[k], *topic, base(readLine), off(readLine), recLen(readLine, delim))))
+// an error of any producer is returned (main() makes it fatal); nothing is published after a failure
+//@   ensures[publish-error-returned] r3dPubFails > old(r3dPubFails) ==> result != nil && result == r3dLastPubErr
+//@   ensures[stops-at-first-failure] r3dPubFails <= old(r3dPubFails) + 1
+// otherwise the reader's verdict is passed on (nil: more input; io.EOF after the final record: main() stops)
+//@   ensures[read-error-passed-on] r3dPubFails == old(r3dPubFails) ==> result == jbrErr
+//@   ensures[one-read] rPos == old(rPos) + len(readLine)
+//@   modifies readLine, pubCount, rPos
 //@   loop 0
 //@     invariant[each-publish-exact] pubCount > old(pubCount) ==> lastPubBody == line && lastPubTopic == *topic
 //@     invariant[count] pubCount >= old(pubCount)
+//@     invariant[visited-published] forall k string :: {producers[k]} visited(k) ==> setin(r3dPubEvs, r3dPubEv(producers[k], *topic, base(line), off(line), len(line)))
+//@     invariant[no-failure-so-far] r3dPubFails == old(r3dPubFails)
